@@ -327,8 +327,15 @@ class Engine:
                     nxt.append((acc + [p.value], s))
                 else:
                     if p.format_spec is not None or p.conversion not in (-1,):
+                        spec = None
+                        if p.conversion == -1 and isinstance(p.format_spec, ast.JoinedStr) and len(p.format_spec.values) == 1 \
+                                and isinstance(p.format_spec.values[0], ast.Constant):
+                            spec = p.format_spec.values[0].value
                         for v, s2 in self.ev(p.value, s):
-                            nxt.append((acc + [Opaque("formatted")], s2))
+                            if spec == "d" and (isinstance(v, (bool, int)) or (is_sym(v) and (z3.is_bool(v) or z3.is_int(v)))):
+                                nxt.append((acc + [as_arith(v)], s2))      # {x:d}: decimal rendering of an int / bool
+                            else:
+                                nxt.append((acc + [Opaque("formatted")], s2))
                         continue
                     for v, s2 in self.ev(p.value, s):
                         nxt.append((acc + [v], s2))
